@@ -211,6 +211,9 @@ pub fn c15_scenarios() -> Vec<Scn> {
       let simple = matches!(c, Interval | Timer | HotObserveOn | ColdSubscribeOn | ColdObserveOn | HotDebounce | HotTimeout);
       let q = if simple && matches!(e, SourceComplete | Unsubscribe | Take1) {
         Some(2)
+      } else if matches!((c, e), (HotObserveOn, Retry2) | (HotTimeout, Retry2) | (HotDebounce, Retry2)) {
+        // a re-subscription on the worker thread racing the unsubscribe
+        Some(2)
       } else if matches!(e, Unsubscribe | Take1) {
         Some(1)
       } else {
